@@ -1,4 +1,5 @@
 import Driver.Decl
+import Driver.Attrs
 open Driver
 
 def dispatch (line : String) : String :=
@@ -10,6 +11,7 @@ def dispatch (line : String) : String :=
   | "parse2" :: args => handleParse2 args
   | "meaning2" :: args => handleMeaning2 args
   | "fund" :: args => handleFund args
+  | "vattrs" :: args => handleVattrs args
   | _ => "bad-op"
 
 partial def loop (h : IO.FS.Stream) (out : IO.FS.Stream) : IO Unit := do
